@@ -101,9 +101,13 @@ CHECKS["C01"] = dict(
          "ordered steps) and histories of projects. Unbounded theorems: for every history of project states with an incremental "
          "build after each, every workspace of the final project holds what a from-scratch build produces "
          "(incremental_equals_clean); one build from any invariant state is correct and re-establishes the invariants; a "
-         "repeated build runs no build/package step and no deterministic checkout; a reused directory is pruned before use. Tie: "
-         "real `bob dev` over generated edit/revert histories: per-step run/skip decisions of every build compared with the "
-         "model (history_runs, vm_compute); oracle: dist trees equal a clean build after every step; repeat build is a no-op.",
+         "repeated build runs no build/package step and no deterministic checkout; a reused directory is pruned before use; "
+         "the result does not depend on the schedule: every build of the history and the last one may run in any dependency-"
+         "respecting order (-jN) and still end with the canonical clean content (any_schedule_equals_clean). Tie: "
+         "real `bob dev`/`bob build` (also -j4, also interleaved with the other mode) over generated edit/revert histories: "
+         "per-step run/skip decisions of every build compared with the model (history_runs, vm_compute) and, per workspace, the "
+         "traced sequence of persistent-state operations, prunes and script runs compared with the model's micro-op sequences "
+         "(history_traces); oracle: dist trees equal a clean build after every step; repeat build is a no-op.",
     note="script behaviour is abstracted (deterministic, restartable; checkout scripts oblivious to leftovers) and satisfied by "
          "the generated scripts by construction; equal input hashes => equal input content is C11; sandbox/fingerprint/download/"
          "share paths are other properties",
@@ -114,9 +118,13 @@ CHECKS["C05"] = dict(
          "inside the running script (partial output) — keeps the invariant of every workspace; from any invariant state the next "
          "build yields the clean results (abort_recovers), hence after any sequence of aborts; a step is skipped only if its "
          "workspace holds the complete output for the current inputs. The proof attempt exposed finding F29 (kill between prune "
-         "and state reset), fixed in /repo. Tie: C01's decision correspondence on the same model; oracle: real builds aborted by "
-         "kill at the k-th state save, kill right after a prune, failing scripts, SIGKILL from inside a script, then lock removed, "
-         "rebuilt and compared with a clean build.",
+         "and state reset), fixed in /repo. Killed -jN builds and repeated aborts: any sequence of partial or complete step "
+         "executions keeps the invariants and the next build in any schedule is clean (partial_executions_keep_invariants, "
+         "recover_after_partial_executions). Tie: the micro-op sequences whose prefixes are the crash images of the theorems are "
+         "compared with the traced persistent-state operations, prunes and script runs of real builds (history_traces), plus the "
+         "decision correspondence; oracle: real builds (also -j/-k) aborted by kill at the k-th state save, kill right after a "
+         "prune or an invalidation, failing scripts, SIGKILL from inside a script, first builds aborted inside every script in "
+         "turn, then lock removed, rebuilt and compared with a clean build.",
     note="as C01; kill points inside individual file operations of the state file are C10's matter",
     technique="Coq proof (invariant over all crash prefixes) + fault injection on real builds",
     design="5/C01-C05")
